@@ -1047,7 +1047,10 @@ def plain_class_rendering_evaluated(ctx, report, RULE='C14.R21'):
                                        c.name, ', '.join('%s=%r' % kv for kv in args.items()), r.name, str(e)[:120]))
                 except Raised:
                     pass
-    report.floor(RULE, 1, 'evaluated renderings of plain parsable classes')
+    if n == 0:
+        # no plain parsable class with a rendering of its own on this tree (C14.R18 decides whether one is missing)
+        report.count(RULE, 0)
+        report.notes.append('%s: no hand written rendering of a plain parsable class to evaluate' % RULE)
 
 
 def equality_on_rendered_values(ctx, report, RULE='C14.R20'):
